@@ -89,7 +89,7 @@ Section RefParse.
             | None => RReturned VNil (dedupe [ref_perr msg_invalid_entrypoint pos0 None []]) mu0
             | Some r =>
                 let m0 := land c None 0 mu0 in
-                match reval c fuel [] (Some r) false (r_expr r) [] (mkSig 0 []) m0 with
+                match reval c fuel [] (Some r) false (r_expr r) [] (mkSig 0 (o_initstate (rO c))) m0 with
                 | ROut => RDiverged
                 | RPanic pv m pos R =>
                     if o_recover (rO c)
